@@ -4,10 +4,10 @@ import fnmatch, json, os, signal, subprocess, sys, tempfile, time, hashlib
 from concurrent.futures import ThreadPoolExecutor
 
 VERIF = os.path.dirname(os.path.dirname(os.path.abspath(__file__)))
-EVID = os.path.join(VERIF, "evidence")
-REPLAYS = os.path.join(VERIF, "replays")
+EVID = os.environ.get("VERIF_EVID", os.path.join(VERIF, "evidence"))
+REPLAYS = os.environ.get("VERIF_REPLAYS", os.path.join(VERIF, "replays"))
 KNOWN = os.path.join(VERIF, "known_findings.txt")
-SCRATCH = os.path.join(VERIF, "build", "scratch")
+SCRATCH = os.path.join(os.environ.get("VERIF_BUILD", os.path.join(VERIF, "build")), "scratch")
 
 ASAN_ENV = {"ASAN_OPTIONS": "detect_leaks=0:abort_on_error=0:exitcode=99:allocator_may_return_null=1",
             "UBSAN_OPTIONS": "print_stacktrace=1:halt_on_error=1:exitcode=98"}
